@@ -41,7 +41,7 @@
                 let unit = |x: f32| x >= 0.0 && x <= 1.0;
                 match a[0].as_str() {
                     "tr" => {
-                        let t = TC_ALL[hx(&a[2]) as usize];
+                        let t = TC_ALL[ix(&a[2])];
                         let x = fb(&a[3]);
                         let r = if a[1] == "lin" {
                             LinearRgb::try_from(Rgb::new(vec![[x, 0.25, 1.0]], 1, 1, t, CP::BT709).unwrap()).map(|o| o.data()[0])
@@ -58,7 +58,7 @@
                         out(!(r.data().len() == 2 && r.width() == 2 && r.height() == 1), format!("{:?}", r.data()));
                     }
                     "pr" => {
-                        let p = CP_ALL[hx(&a[2]) as usize];
+                        let p = CP_ALL[ix(&a[2])];
                         let px = [fb(&a[3]), fb(&a[4]), fb(&a[5])];
                         let r = if a[1] == "in" {
                             LinearRgb::try_from(Rgb::new(vec![px], 1, 1, TC::Linear, p).unwrap()).map(|o| o.data()[0])
@@ -83,9 +83,9 @@
                         out(numeric && unit(px[0]) && unit(px[1]) && unit(px[2]) && !fin(&o), format!("{:?} -> {:?}", px, o));
                     }
                     "enc" => {
-                        let bd = hx(&a[2]) as u8;
+                        let bd = (ix(&a[2]) as u8);
                         let full = a[3] == "1" || a[3] == "true";
-                        let mc = MC_ALL[hx(&a[4]) as usize];
+                        let mc = MC_ALL[ix(&a[4])];
                         let px = [fb(&a[5]), fb(&a[6]), fb(&a[7])];
                         let rgb = Rgb::new(vec![px], 1, 1, TC::BT1886, CP::BT709).unwrap();
                         let c = cfg(bd, full, mc, 0, 0);
@@ -146,7 +146,7 @@
 
             // vecnew <Type> <len> <w> <h>
             "vecnew" => {
-                let (l, w, h) = (hx(&a[1]) as usize, a[2].parse::<usize>().unwrap(), a[3].parse::<usize>().unwrap());
+                let (l, w, h) = (ix(&a[1]), a[2].parse::<usize>().unwrap(), a[3].parse::<usize>().unwrap());
                 let d = vec![[0.5f32, 0.25, 1.0]; l];
                 let (ok, dims) = match a[0].as_str() {
                     "Rgb" => match Rgb::new(d, w, h, TC::SRGB, CP::BT709) { Ok(x) => (true, (x.width(), x.height(), x.data().len())), Err(_) => (false, (0, 0, 0)) },
@@ -161,8 +161,8 @@
             // meta <what> <mc> <cp> <tc> <cp2> <tc2>: the C14 contract on one concrete metadata triple
             "meta" => {
                 use crate::ConversionError as E;
-                let (mc, cp, tc) = (MC_ALL[hx(&a[1]) as usize], CP_ALL[hx(&a[2]) as usize], TC_ALL[hx(&a[3]) as usize]);
-                let (cp2, tc2) = (CP_ALL[hx(&a[4]) as usize], TC_ALL[hx(&a[5]) as usize]);
+                let (mc, cp, tc) = (MC_ALL[ix(&a[1])], CP_ALL[ix(&a[2])], TC_ALL[ix(&a[3])]);
+                let (cp2, tc2) = (CP_ALL[ix(&a[4])], TC_ALL[ix(&a[5])]);
                 let std_mc = MC_STD.contains(&mc); let sup_tc = TC_SUP.contains(&tc); let sup_cp = CP_SUP.contains(&cp);
                 let c = |cp: CP, tc: TC| YuvConfig { transfer_characteristics: tc, color_primaries: cp, ..cfg(8, false, mc, 0, 0) };
                 let y1 = |cc: YuvConfig| Yuv::new(Frame { planes: [Plane::from_slice(&[100u8], 1), Plane::from_slice(&[120u8], 1), Plane::from_slice(&[140u8], 1)] }, cc).unwrap();
@@ -215,7 +215,7 @@
             "unspec" => {
                 match a[0].as_str() {
                     "yuvres" => {
-                        let (mc, cp, tc) = (MC_ALL[hx(&a[1]) as usize], CP_ALL[hx(&a[2]) as usize], TC_ALL[hx(&a[3]) as usize]);
+                        let (mc, cp, tc) = (MC_ALL[ix(&a[1])], CP_ALL[ix(&a[2])], TC_ALL[ix(&a[3])]);
                         let (w, h) = (a[4].parse::<usize>().unwrap(), a[5].parse::<usize>().unwrap());
                         let mut f: Frame<u8> = Frame { planes: [Plane::from_slice(&[1u8], 1), Plane::from_slice(&[2u8], 1), Plane::from_slice(&[3u8], 1)] };
                         for p in 0..3 { f.planes[p].cfg.width = w; f.planes[p].cfg.height = h; }
@@ -229,7 +229,7 @@
                             format!("{}x{} {:?}/{:?}/{:?} -> {:?}/{:?}/{:?}, documented {:?}/{:?}/{:?}", w, h, mc, cp, tc, r.matrix_coefficients, r.color_primaries, r.transfer_characteristics, wm, wp, wt));
                     }
                     "rgbres" => {
-                        let (cp, tc) = (CP_ALL[hx(&a[1]) as usize], TC_ALL[hx(&a[2]) as usize]);
+                        let (cp, tc) = (CP_ALL[ix(&a[1])], TC_ALL[ix(&a[2])]);
                         let r = Rgb::new(vec![[0.25, 0.5, 0.75]], 1, 1, tc, cp).unwrap();
                         let wt = if tc == TC::Unspecified { TC::SRGB } else { tc }; let wp = if cp == CP::Unspecified { CP::BT709 } else { cp };
                         let mut bad = r.transfer() != wt || r.primaries() != wp;
@@ -237,7 +237,7 @@
                         out(bad, format!("{:?}/{:?} -> {:?}/{:?}", tc, cp, r.transfer(), r.primaries()));
                     }
                     _ => {
-                        let (mc, cp, tc) = (MC_ALL[hx(&a[1]) as usize], CP_ALL[hx(&a[2]) as usize], TC_ALL[hx(&a[3]) as usize]);
+                        let (mc, cp, tc) = (MC_ALL[ix(&a[1])], CP_ALL[ix(&a[2])], TC_ALL[ix(&a[3])]);
                         let px = vec![[fb(&a[4]), fb(&a[5]), fb(&a[6])]];
                         let c = YuvConfig { transfer_characteristics: tc, color_primaries: cp, ..cfg(8, false, mc, 0, 0) };
                         let conv = |cc: YuvConfig| if a[0] == "labelx" { Yuv::<u8>::try_from((Xyb::new(px.clone(), 1, 1).unwrap(), cc)) } else { Yuv::<u8>::try_from((LinearRgb::new(px.clone(), 1, 1).unwrap(), cc)) };
@@ -422,7 +422,7 @@
                         _ => return None,
                     })
                 }
-                let t = TC_ALL[hx(&a[1]) as usize]; let x = fb(&a[2]);
+                let t = TC_ALL[ix(&a[1])]; let x = fb(&a[2]);
                 let lin = |t: TC, x: f32| LinearRgb::try_from(Rgb::new(vec![[x, 0.5, 0.25]], 1, 1, t, CP::BT709).unwrap()).unwrap().data()[0][0];
                 let gam = |t: TC, x: f32| Rgb::try_from((LinearRgb::new(vec![[x, 0.5, 0.25]], 1, 1).unwrap(), t, CP::BT709)).unwrap().data()[0][0];
                 let inr = x >= 0.0 && x <= 1.0;
@@ -465,7 +465,7 @@
                     let m: M = [[cols[0][0], cols[1][0], cols[2][0]], [cols[0][1], cols[1][1], cols[2][1]], [cols[0][2], cols[1][2], cols[2][2]]];
                     let s = mv(&inv(&m), xyz(white(p)));
                     [[m[0][0] * s[0], m[0][1] * s[1], m[0][2] * s[2]], [m[1][0] * s[0], m[1][1] * s[1], m[1][2] * s[2]], [m[2][0] * s[0], m[2][1] * s[1], m[2][2] * s[2]]] }
-                let (pi, po) = (CP_ALL[hx(&a[0]) as usize], CP_ALL[hx(&a[1]) as usize]);
+                let (pi, po) = (CP_ALL[ix(&a[0])], CP_ALL[ix(&a[1])]);
                 let px = [fb(&a[2]), fb(&a[3]), fb(&a[4])];
                 let got = if po == CP::BT709 { LinearRgb::try_from(Rgb::new(vec![px], 1, 1, TC::Linear, pi).unwrap()).unwrap().data()[0] }
                     else { Rgb::try_from((LinearRgb::new(vec![px], 1, 1).unwrap(), TC::Linear, po)).unwrap().data()[0] };
